@@ -35,6 +35,21 @@ fn byzantine_datagram(ch: &mut Ch) -> Vec<u8> {
         let n = ch.below(13, "byz.rawlen") as usize;
         return (0..n).map(|_| ch.below(256, "byz.rawbyte") as u8).collect();
     }
+    if ch.chance(1, 80, "byz.huge") {
+        // the 64 KiB corner: one option whose 16-bit extended length is at or
+        // near its maximum, with the whole value present
+        let ext = *ch.pick(&[0xFEF2u16, 0xFEF3, 0xFFFF, 0xFF00, 0xFEF1], "byz.huge.ext");
+        let len = ext as usize + 269;
+        let fill = *ch.pick(&[0x00u8, 0x41, 0xFF, 0x10], "byz.huge.fill");
+        let mut b = vec![0x40, 0x01, 0x12, 0x34, 0x1E, (ext >> 8) as u8, ext as u8];
+        b.extend(std::iter::repeat(fill).take(len));
+        match ch.below(3, "byz.huge.tail") {
+            0 => {}
+            1 => b.extend_from_slice(&[0xFF, 0x70, 0x71]),
+            _ => b.extend_from_slice(&[0x11, 0x55]),
+        }
+        return b;
+    }
     let ver = if ch.chance(1, 8, "byz.ver") { ch.below(4, "byz.verv") as u8 } else { 1 };
     let typ = ch.below(4, "byz.type") as u8;
     let tkl = if ch.chance(1, 6, "byz.tklbad") { 9 + ch.below(7, "byz.tkl") as u8 } else { ch.below(9, "byz.tkl") as u8 };
